@@ -31,6 +31,8 @@ Definition from_str (input : list Z) : cstring :=
    same construction as From<&str>.  [from_bytes_v0] is the code before the repair
    (Box::new(from.to_vec().into_boxed_slice()): the bytes as they are, outer box leaked). *)
 Definition from_bytes (input : list Z) : cstring := from_str input.
+(* From<String>: from.as_str().into() *)
+Definition from_string (input : list Z) : cstring := from_str input.
 Definition from_bytes_v0 (input : list Z) : cstring := mkc input (length input) 16.
 
 (* AsRef<str>: from_raw_parts(ptr, string_size(ptr) - 1) *)
@@ -51,12 +53,12 @@ Definition drop_cstring (c : cstring) : outcome nat :=
 Definition clone_cstring (c : cstring) : outcome cstring :=
   match as_ref c with Ok s => Ok (from_str s) | _ => UB end.
 
-(* output row of one case: constructor kind k (0 = From<&str>, 1 = From<&[u8]>) and input bytes:
+(* output row of one case: constructor kind k (0 = From<&str>, 1 = From<&[u8]>, 2 = ReprCStr from &CStr, 3 = From<String>) and input bytes:
    [ok; leaked; len; read-back bytes...] ; clone row ; eq/hash row *)
 Definition run_case (row : list Z) : list Z :=
   match row with
   | k :: input =>
-      let c := if k =? 0 then from_str input else from_bytes input in
+      let c := if k =? 0 then from_str input else if k =? 3 then from_string input else from_bytes input in
       match as_ref c, clone_cstring c with
       | Ok s, Ok c2 =>
           match as_ref c2, drop_cstring c, drop_cstring c2 with
